@@ -26,7 +26,7 @@ def mentions(e, name):
 
 
 NONEMPTY_CLASSES = ["And", "Or", "Xor", "Piecewise", "Union", "FiniteSet",
-                    "Derivative"]
+                    "Derivative", "Max", "Min"]
 
 
 def run(loader, R, tier):
@@ -292,8 +292,10 @@ def run(loader, R, tier):
     # element count of 0 must be rejected there (frozen instances, each
     # confirmed with replays/c20_nodes_from_empty_containers.cpp: printing
     # an And/Or/Xor/Piecewise/Union/FiniteSet without operands crashed,
-    # latex of a Derivative without variables did not terminate; Max, Min,
-    # Mul, Add, Subs and FunctionSymbol tolerate empty containers)
+    # latex of a Derivative without variables did not terminate;
+    # replays/c20_max_without_arguments.cpp: eval_double of a Max/Min
+    # without arguments dereferences the first one; Mul, Add, Subs,
+    # LeviCivita and FunctionSymbol tolerate empty containers)
     R.rule("R20.12", "loaders reject an empty operand container for the "
                      "node classes that cannot be empty")
     NONEMPTY = NONEMPTY_CLASSES
@@ -351,7 +353,37 @@ def run(loader, R, tier):
                 "object cannot be produced by the library itself, and "
                 "printing it dereferences the first operand of an empty "
                 "container" % (K, sorted(used - tested) or sorted(locs)))
-    R.floor("loaders of classes that cannot be empty", n12, 7)
+    R.floor("loaders of classes that cannot be empty", n12, 9)
+
+    # ------------------------------------------------------------ R20.13
+    # the back-reference table of the input archive: a record may name the
+    # address of any earlier record, including one whose object was a
+    # temporary of an enclosing loader (an operand the canonicalising
+    # factory folded away) -- only an owning reference in the table keeps
+    # that object alive until the later record resolves it.
+    R.rule("R20.13", "the loader's address table owns the objects it hands "
+                     "out for back-references")
+    n13 = 0
+    for cn, c in prog.classes.items():
+        if not cn.startswith("SymEngine::RCPBasicAwareInputArchive"):
+            continue
+        for fld in c.get("fields", ()):
+            t = fld.get("t") or ""
+            if "map<" not in t:
+                continue
+            n13 += 1
+            key = "%s::%s" % (short(cn).split("<")[0], fld["n"])
+            owning = "RCP<const SymEngine::Basic>" in t \
+                and "Basic> *" not in t
+            R.instance("R20.13", key, sample={"field": fld["n"], "type": t})
+            if not owning:
+                R.violation(
+                    "R20.13", key, c.get("loc") or "symengine/serialize-cereal.h",
+                    "the address table %s has type %s: it does not own the "
+                    "loaded objects, so a back-reference to a record whose "
+                    "object an enclosing factory already dropped (a folded "
+                    "operand) resolves to freed memory" % (fld["n"], t))
+    R.floor("address tables of the input archive", n13, 1)
 
     # ------------------------------------------------------------ R20.11
     # numbers rebuilt from untrusted archive fields: inside the load_basic
